@@ -444,6 +444,11 @@ class BooleanExpression(FilterExpression):
                     f"({expr})" if parent_precedence >= PRECEDENCE_LOGICAL_OR else expr
                 )
 
+            # A comparison needs parentheses when it is the operand of `!`, or
+            # the negation would apply to its left hand side only.
+            expr = str(expression)
+            return f"({expr})" if parent_precedence >= PRECEDENCE_PREFIX else expr
+
         if isinstance(expression, PrefixExpression):
             operand = self._canonical_string(expression.right, PRECEDENCE_PREFIX)
             expr = f"!{operand}"
